@@ -62,7 +62,8 @@ class IPSECKEY(dns.rdata.Rdata):
         gateway = Gateway.from_text(
             gateway_type, tok, origin, relativize, relativize_to
         )
-        b64 = tok.concatenate_remaining_identifiers().encode()
+        # RFC 4025 section 2.4: with algorithm 0 no public key is present.
+        b64 = tok.concatenate_remaining_identifiers(algorithm == 0).encode()
         key = base64.b64decode(b64)
         return cls(
             rdclass, rdtype, precedence, gateway_type, algorithm, gateway.gateway, key
